@@ -2,7 +2,7 @@
 import json, os, sys
 sys.path.insert(0, os.path.dirname(os.path.dirname(os.path.abspath(__file__))))
 sys.dont_write_bytecode = True
-from pvs.registry import CLAIMS, PENDING_REASON, NOT_APPLICABLE  # noqa
+from pvs.registry import CLAIMS, PENDING_REASON, NOT_APPLICABLE, VALUE_RULES  # noqa
 ids = [json.loads(l)["id"] for l in open("/verif/properties.jsonl")]
 checks, na = [], []
 for i in ids:
@@ -15,7 +15,7 @@ for i in ids:
             "evidence_file": f"/verif/evidence/{i}.json",
             "replay_cmd_template": f"./check {i} --replay {{path}}",
             "engine": "pvs",
-            "level_claimed": {"category": "other", "text": c["text"], "design_ref": f"DESIGN.md section 4, {i}"},
+            "level_claimed": {"category": "other", "text": c["text"] + (" " + VALUE_RULES[i] if i in VALUE_RULES else ""), "design_ref": f"DESIGN.md section 4, {i}"},
             "level_note": c["note"],
             "technique": c["technique"],
         })
@@ -33,11 +33,11 @@ man = {
     },
     "engines": [{
         "name": "pvs", "path": "/verif/pvs", "serves_properties": sorted(CLAIMS),
-        "kind_free_text": "repository-specific static analysis: Python ast front end with constant folding, resolved call binding, small CFG/path enumeration, regex-AST analysis, locale-literal closure; Rust through rustc MIR text (loops, integer updates, comparison operators) and a const-table evaluator",
+        "kind_free_text": "repository-specific static analysis: Python ast front end with constant folding, resolved call binding, small CFG/path enumeration, regex-AST analysis, locale-literal closure, an equivalence engine against a frozen reference snapshot (canonical path summaries), and the analyser's own interpreter over ast (instance-stub worlds for durations, calendar navigation, wall-clock units, times) used to tabulate the analysed source on finite input tables; Rust through rustc MIR text (loops, integer updates, comparison operators), symbolic execution of MIR blocks into path summaries and their numeric evaluation",
     }],
     "checks": checks,
     "not_applicable": na,
-    "notes": "Static analysis only: no check imports, runs, fuzzes or symbolically executes pendulum. Each check decides the structural clauses listed for its property in DESIGN.md section 4 and says in its evidence which clauses are outside the claim.",
+    "notes": "Static analysis only: no check imports, runs, fuzzes or hands pendulum to a solver; the source is read (ast, rustc MIR) and, for the value rules, evaluated by the analyser's own interpreter on finite tables. Each check says in its evidence which clauses it decides and which are outside the claim.",
 }
 json.dump(man, open("/verif/MANIFEST.json", "w"), indent=1)
 print("checks:", [c["property_id"] for c in checks], "n/a:", len(na))
